@@ -783,6 +783,38 @@ fn boundary_partitions<T: H>(name: &str, rng: &mut Rng, failures: &mut Vec<Strin
                     .ok()
                 };
                 let whole = run(&[]);
+                // an instance whose counters are beyond the boundary (high word / upper bytes non-zero)
+                // is reset, or finalised in place and reset, and reused: it must behave like a new one
+                if r == 1 {
+                    for mode in 0..3u8 {
+                        *runs += 1;
+                        let reused = catch_unwind(AssertUnwindSafe(|| {
+                            let mut h = T::default();
+                            h.enter(b + 1 + k);
+                            Digest::update(&mut h, &tail[..bs + 3]);
+                            match mode {
+                                0 => Digest::reset(&mut h),
+                                1 => {
+                                    let _ = digest::FixedOutput::finalize_fixed_reset(&mut h);
+                                }
+                                _ => {
+                                    let _ = Digest::finalize_reset(&mut h);
+                                }
+                            }
+                            Digest::update(&mut h, &tail[..]);
+                            Digest::finalize(h).to_vec()
+                        }))
+                        .ok();
+                        let fresh = Some(T::digest(&tail[..]).to_vec());
+                        if reused != fresh && failures.len() < 6 {
+                            failures.push(format!(
+                                "{{\"failure\":{},\"case\":{{\"type\":{},\"entered_blocks\":\"{}\",\"mode\":{},\"tail_len\":{},\"tail\":{}}}}}",
+                                jstr(&format!("{}: an instance entered {} blocks into a message (beyond counter boundary {}), then {} and reused, does not return the digest a new instance returns", name, b + 1 + k, b, ["reset", "finalised in place (finalize_fixed_reset)", "finalize_reset"][mode as usize])),
+                                jstr(name), b + 1 + k, mode, tail.len(), jstr(&hex(&tail))
+                            ));
+                        }
+                    }
+                }
                 let kb = k as usize * bs;
                 let per_block: Vec<usize> = (1..=(k as usize + 2)).map(|i| i * bs).collect();
                 let r1 = 1 + rng.below(tail.len() as u64 - 1) as usize;
